@@ -151,6 +151,61 @@ fn run(case: &Value) -> Value {
                 Err(_) => json!({"r": "err", "left": buf.len()}),
             }
         }
+        "prefixes" => {
+            let frame = bytes_of(&case["frame"]);
+            let trail = bytes_of(&case["trail"]);
+            let dec = |b: &[u8]| -> Value {
+                let mut buf = BytesMut::from(b);
+                match ldap3::verif_hooks::decode(&mut buf) {
+                    Ok(None) => json!({"r": "none", "left": buf.len()}),
+                    Ok(Some((id, tag, ctrls))) => {
+                        let st = tag.into_structure();
+                        json!({"r": "some", "id": id, "op": tree_json(&st), "left": buf.len(), "ctrls": ctrls.iter().map(ctrl_json).collect::<Vec<_>>()})
+                    }
+                    Err(_) => json!({"r": "err", "left": buf.len()}),
+                }
+            };
+            let mut with = vec![];
+            for j in 1..=trail.len() {
+                let mut b = frame.clone();
+                b.extend(&trail[..j]);
+                with.push(dec(&b));
+            }
+            let prefix: Vec<Value> = (0..frame.len()).map(|k| dec(&frame[..k])).collect();
+            json!({"exact": dec(&frame), "with": with, "prefix": prefix})
+        }
+        "decode_and_convert" => {
+            let b = bytes_of(&case["bytes"]);
+            let mut buf = BytesMut::from(&b[..]);
+            match ldap3::verif_hooks::decode(&mut buf) {
+                Ok(None) => json!({"r": "none", "left": buf.len()}),
+                Ok(Some((id, tag, ctrls))) => {
+                    let st = tag.clone().into_structure();
+                    if st.id == 5 {
+                        // what the driver does with a SearchResultDone for a search ID
+                        let _r: ldap3::LdapResult = ldap3::LdapResult::from(tag);
+                    }
+                    json!({"r": "some", "id": id, "op": tree_json(&st), "left": buf.len(),
+                           "ctrls": ctrls.iter().map(ctrl_json).collect::<Vec<_>>()})
+                }
+                Err(_) => json!({"r": "err", "left": buf.len()}),
+            }
+        }
+        "nest_probe" => {
+            // `deep` nested constructed TLVs, parsed on this thread's stack
+            let deep = case["deep"].as_u64().unwrap() as usize;
+            let mut rev: Vec<u8> = vec![0x00, 0x30];
+            for _ in 1..deep {
+                let mut hdr = vec![0x30u8];
+                hdr.extend(lber::write::verif_write_length(rev.len()));
+                hdr.reverse();
+                rev.extend(hdr);
+            }
+            rev.reverse();
+            let cur = rev;
+            let r = lber::parse::parse_tag(&cur);
+            json!({"deep_ok": r.is_ok() || r.is_err(), "len": cur.len()})
+        }
         "encode_msg" => {
             let id = case["id"].as_i64().unwrap() as i32;
             let t = tree_of(&case["tree"]);
@@ -195,11 +250,6 @@ fn run(case: &Value) -> Value {
             let t = tree_of(&case["tree"]);
             let (r, exop, sasl) = ldap3::verif_hooks::result_ext(Tag::StructureTag(t));
             json!({"result": ldap_result_json(&r), "exop_name": exop.name.map(|s| s.into_bytes()), "exop_val": exop.val, "sasl": sasl})
-        }
-        "parse_controls" => {
-            let t = tree_of(&case["tree"]);
-            let v = ldap3::verif_hooks::controls_parse(t);
-            json!({"ctrls": v.iter().map(ctrl_json).collect::<Vec<_>>()})
         }
         "build_control" => {
             let t = ldap3::verif_hooks::controls_build_tag(raw_ctrl_of(&case["ctrl"]));
@@ -246,18 +296,26 @@ fn run(case: &Value) -> Value {
     }
 }
 
+thread_local! {
+    static PANIC_FILE: std::cell::RefCell<String> = std::cell::RefCell::new(String::new());
+}
+
 fn run_guarded(case: &Value) -> Value {
     match catch_unwind(AssertUnwindSafe(|| run(case))) {
         Ok(v) => json!({"outcome": "ok", "value": v}),
         Err(e) => {
             let msg = e.downcast_ref::<String>().cloned().or(e.downcast_ref::<&str>().map(|s| s.to_string())).unwrap_or_default();
-            json!({"outcome": "panic", "msg": msg})
+            let file = PANIC_FILE.with(|f| f.borrow().clone());
+            json!({"outcome": "panic", "msg": msg, "file": file})
         }
     }
 }
 
 fn main() {
-    std::panic::set_hook(Box::new(|_| {}));
+    std::panic::set_hook(Box::new(|info| {
+        let file = info.location().map(|l| l.file().rsplit('/').next().unwrap_or("").to_string()).unwrap_or_default();
+        PANIC_FILE.with(|f| *f.borrow_mut() = file);
+    }));
     let arg = std::env::args().nth(1).unwrap_or_else(|| "-".into());
     let text = if arg == "-" {
         let mut s = String::new();
